@@ -4,12 +4,22 @@ import DFV.Lemmas.C11Ex
 import DFV.Lemmas.C11More
 import DFV.Lemmas.C11Real
 import DFV.Lemmas.C11PolyC
+import DFV.Lemmas.C11Irf
+import DFV.Lemmas.C11Back
+import DFV.Lemmas.C11Trans
+import DFV.Lemmas.C11Perm
+import DFV.Lemmas.C11Exp
+import DFV.Lemmas.C11NatNP
+import DFV.Lemmas.C11Ex2
+import DFV.Lemmas.C11Half
 /-!
 # C11 — field FFTs are the discrete Fourier transform at the k-mesh's frequencies
 
 Property theorems only (helper lemmas and the spec-level definitions `kMesh`, `originMesh`,
 `sumBox`, `phase`, `phaseR`, `ninvProd`, `lastShift`, `mirror`, `IsRoot`, `Roots`, `Root.swap`, `IsConj`, `CFInv`,
-`IsHom`, `Root.map`, `CF.map`, `mapM`, `Ev`, `PrimRoot(s)`, `Ev.ConjOK`, `cEv` live in `DFV/Lemmas/C11*.lean`).
+`IsHom`, `Root.map`, `CF.map`, `mapM`, `Ev`, `PrimRoot(s)`, `Ev.ConjOK`, `cEv`, and for part (d) `rMesh`, `KCanonical`,
+`hermExtS`, `HermPlanes`, `rollIdx`, `rollArr`, `kr`, `krR`, `ifftshiftL` live in `DFV/Lemmas/C11*.lean`; `mirrorR`,
+`symPlanes`, `irfftnNP` are model definitions).
 
 Part (a) is exact arithmetic over `Rat` about the model of `Mesh.fftn` / `Mesh.ifftn`
 (`DFV/Model/C11.lean`), for every number of dimensions, every region, every mix of even, odd and
@@ -22,7 +32,11 @@ of root-of-unity monomials (`Poly`); evaluation `Ev.eval` of such combinations i
 commutative ring preserves `0 1 + *` for arbitrary `ζ_a`, respects `Poly.conj` and the printed
 dense form once `ζ_a^(n_a) = 1`, and the whole code-shaped model commutes with it — so what the
 harness computes from the driver's output is the value of the model over `R`, to which the
-theorems of part (b) apply.
+theorems of part (b) apply.  Part (d) (second round): shifts as permutations; acceptance of the
+inverse transforms as equivalences and their results on k-space meshes / fields that did not come
+from a forward transform; forward ∘ inverse at field level; `irfftn` as one sum (full box and
+stored half spectrum) and numpy's convention on arbitrary half spectra (`irfftnNP`, the model the
+driver runs); shift theorem; the value theorems over ℂ with the phase written `exp(∓2πi k·r)`.
 -/
 namespace DFV.C11
 open DFV
@@ -807,6 +821,774 @@ theorem driver_complex (ns : List Nat) (h : ∀ n ∈ ns, 0 < n) :
 
 end driver
 
+/-! ## (d) second extension round
+
+`fftshift`/`ifftshift` as permutations; what `Mesh.ifftn`, `Field.ifftn`, `Field.irfftn` require
+of their inputs (equivalences) and return on k-space meshes / fields that did not come from a
+forward transform; forward ∘ inverse at field level; `irfftn` as one sum and numpy's convention on
+half spectra that are not Hermitian-consistent (`irfftnNP`, the model the driver runs); the shift
+theorem; the value theorems over ℂ with the phase written as `exp(∓2πi k·r)`. -/
+
+/-! ### (d.1) the shifts are permutations -/
+
+/-- **`fftshift` of a list is a permutation of its entries, undone by `ifftshift`, for every
+length** (even, odd, 0, 1): `fftshift` is the rotation by `⌈n/2⌉`, `ifftshift` the rotation by
+`⌊n/2⌋`, and the two compose to the identity in both orders. -/
+theorem fftshift_list_permutation (xs : List Rat) :
+    (fftshiftL xs).Perm xs ∧ fftshiftL xs = xs.rotate (xs.length - xs.length / 2) ∧
+    ifftshiftL xs = xs.rotate (xs.length / 2) ∧
+    ifftshiftL (fftshiftL xs) = xs ∧ fftshiftL (ifftshiftL xs) = xs :=
+  ⟨fftshiftL_perm xs, fftshiftL_eq_rotate xs, ifftshiftL_eq_rotate xs, ifftshiftL_fftshiftL xs,
+    fftshiftL_ifftshiftL xs⟩
+
+/-- **Along every axis the k-cell centres are a permutation of the DFT sample frequencies**
+`fftfreq(n, cell)`: every sample frequency is the centre of exactly one k-cell (the list of the
+centres is `fftshift(fftfreq(n, cell))`), for even, odd and single-cell axes. -/
+theorem kcell_centres_permutation (m : Mesh) (k : Mesh) (h : meshFftn m false = .ok k) (hm : m.Inv)
+    (a : Nat) (ha : a < m.ndim) :
+    tab (m.nAt a) (fun j => k.centreAx a (j : Int)) = fftshiftL (fftfreq (m.nAt a) (m.cellAt a)) ∧
+    (tab (m.nAt a) (fun j => k.centreAx a (j : Int))).Perm (fftfreq (m.nAt a) (m.cellAt a)) := by
+  have e : tab (m.nAt a) (fun j => k.centreAx a (j : Int)) = fftshiftL (fftfreq (m.nAt a) (m.cellAt a)) := by
+    symm
+    apply eq_tab_of_getD _ _ _ 0 (by simp [fftshiftL, fftfreq])
+    intro j hj
+    exact ((kcell_centres m k h hm a ha).2 j hj).symm
+  exact ⟨e, by rw [e]; exact fftshiftL_perm _⟩
+
+/-- **`fftshift` and `ifftshift` over all axes are mutually inverse permutations of the index
+box, for every shape**: both send the box into itself, each undoes the other, both are injective
+on the box; entry `a` of the image is `(m_a + ⌈n_a/2⌉) mod n_a` resp. `(m_a + ⌊n_a/2⌋) mod n_a`. -/
+theorem shift_permutation (ns m : List Nat) (h : inRange ns m = true) :
+    inRange ns (fshift ns m) = true ∧ inRange ns (ishift ns m) = true ∧
+    fshift ns (ishift ns m) = m ∧ ishift ns (fshift ns m) = m ∧
+    (∀ m', inRange ns m' = true → fshift ns m' = fshift ns m → m' = m) ∧
+    (∀ m', inRange ns m' = true → ishift ns m' = ishift ns m → m' = m) ∧
+    ∀ a, a < ns.length →
+      (fshift ns m).getD a 0 = (m.getD a 0 + (ns.getD a 0 - ns.getD a 0 / 2)) % ns.getD a 0 ∧
+      (ishift ns m).getD a 0 = (m.getD a 0 + ns.getD a 0 / 2) % ns.getD a 0 := by
+  refine ⟨fshift_inRange ns m h, ishift_inRange ns m h, fshift_ishift ns m h, ishift_fshift ns m h, ?_, ?_, ?_⟩
+  · intro m' h' e
+    rw [← ishift_fshift ns m' h', e, ishift_fshift ns m h]
+  · intro m' h' e
+    rw [← fshift_ishift ns m' h', e, fshift_ishift ns m h]
+  · intro a ha
+    exact ⟨fshift_getD ns m (inRange_length _ _ h) a ha, ishift_getD ns m (inRange_length _ _ h) a ha⟩
+
+/-- **The partial shifts of the real transforms** (`axes[:-1]`: every axis but the last) are
+mutually inverse permutations of the full box of counts `ns`, keep the last index, and restrict
+to mutually inverse permutations of the half-spectrum box `halfShape ns`. -/
+theorem shiftR_permutation (ns m : List Nat) (h : inRange ns m = true) :
+    inRange ns (fshiftR ns m) = true ∧ inRange ns (ishiftR ns m) = true ∧
+    fshiftR ns (ishiftR ns m) = m ∧ ishiftR ns (fshiftR ns m) = m ∧
+    (fshiftR ns m).getLastD 0 = m.getLastD 0 ∧ (ishiftR ns m).getLastD 0 = m.getLastD 0 ∧
+    ∀ m', inRange (halfShape ns) m' = true → ishiftR (halfShape ns) (fshiftR ns m') = m' :=
+  ⟨fshiftR_inRange_full ns m h, ishiftR_inRange_full ns m h, fshiftR_ishiftR_full ns m h,
+    ishiftR_fshiftR_full ns m h, fshiftR_last ns m, ishiftR_last ns m, fun m' h' => ishiftR_fshiftR ns m' h'⟩
+
+/-! ### (d.2) `Mesh.ifftn`: what it requires and what it returns, on ANY valid mesh -/
+
+/-- **The `shape` argument of `Mesh.ifftn` is accepted iff** it has one entry per dimension,
+its leading entries are the k-mesh's counts and its last entry `s` satisfies
+`s // 2 + 1 = n_last` (for both values of `rfft`, as in the code); the counts used are then
+`shape` itself. -/
+theorem ifftn_shape_accepted_iff (k : Mesh) (rfft : Bool) (s s' : List Nat) :
+    ifftShape k rfft (some s) = .ok s' ↔
+      s' = s ∧ s.length = k.ndim ∧ (∀ a, a < k.ndim - 1 → s.getD a 0 = k.nAt a) ∧
+        s.getD (k.ndim - 1) 0 / 2 + 1 = k.nAt (k.ndim - 1) :=
+  ifftShape_some_ok_iff k rfft s s'
+
+/-- **`Mesh.ifftn` on a valid mesh — acceptance as an equivalence, and the result.**  The call
+succeeds iff the counts `s` derived from `shape` are accepted, every count is positive (a last
+entry 0 passes the shape test when `n_last = 1` and is refused by `fftfreq`) and no two dimension
+names coincide once the prefix `k_` is stripped.  The result then has the counts `s`, cell size
+`1/(s_a·cell_a)`, is centred at the origin, has the stripped names and units, the tolerance factor
+of the k-mesh, no boundary conditions and no subregions — whether or not the mesh came from
+`Mesh.fftn`. -/
+theorem ifftn_mesh_accepts_iff (k : Mesh) (hk : k.Inv) (rfft : Bool) (shape : Option (List Nat)) (b : Mesh) :
+    meshIfftn k rfft shape = .ok b ↔
+      ∃ s, ifftShape k rfft shape = .ok s ∧ (∀ a, a < k.ndim → 0 < s.getD a 0) ∧
+        hasDup (k.region.dims.map (stripPre "k_")) = false ∧
+        b.Inv ∧ b.n = s ∧ b.bc = "" ∧ b.subs = [] ∧ b.region.tol = k.region.tol ∧
+        b.region.dims = k.region.dims.map (stripPre "k_") ∧ b.region.units = k.region.units.map stripUnit ∧
+        b.region.pmin = tab k.ndim (fun a => -(1 / (2 * k.cellAt a))) ∧
+        b.region.pmax = tab k.ndim (fun a => 1 / (2 * k.cellAt a)) ∧
+        ∀ a, a < k.ndim → b.cellAt a = 1 / ((s.getD a 0 : Rat) * k.cellAt a) ∧
+          b.region.lo a + b.region.hi a = 0 := by
+  rw [meshIfftn_ok_iff k hk rfft shape b]
+  constructor
+  · rintro ⟨s, hs, hp, hd, rfl⟩
+    have hl := ifftShape_length k rfft shape s hk.2.1 hs
+    refine ⟨s, hs, hp, hd, rMesh_inv k hk s hl hp hd, rfl, rfl, rfl, rfl, rfl, rfl, rfl, rfl, ?_⟩
+    intro a ha
+    refine ⟨rMesh_cellAt k s a ha, ?_⟩
+    simp only [rMesh, Region.lo, Region.hi]
+    rw [getD_tab _ _ _ _ ha, getD_tab _ _ _ _ ha]; ring
+  · rintro ⟨s, hs, hp, hd, _, hn, hbc, hsub, htol, hdims, hunits, hmin, hmax, _⟩
+    refine ⟨s, hs, hp, hd, ?_⟩
+    obtain ⟨⟨pmin, pmax, dims, units, tol⟩, n, bc, subs⟩ := b
+    simp only at hn hbc hsub htol hdims hunits hmin hmax
+    subst hn hbc hsub htol hdims hunits hmin hmax
+    rfl
+
+/-- **Without a `shape` every valid mesh is accepted unless two names collide**: the default
+counts (`n`, or `2(n_last - 1)` along the last axis of the real transform when `n_last ≠ 1`) are
+always accepted and positive. -/
+theorem ifftn_mesh_default_accepts_iff (k : Mesh) (hk : k.Inv) (rfft : Bool) :
+    (∃ b, meshIfftn k rfft none = .ok b) ↔ hasDup (k.region.dims.map (stripPre "k_")) = false := by
+  constructor
+  · rintro ⟨b, h⟩
+    obtain ⟨s, _, _, hd, _⟩ := (meshIfftn_ok_iff k hk rfft none b).mp h
+    exact hd
+  · intro hd
+    have hs : ifftShape k rfft none = .ok _ := ifftShape_none k rfft
+    exact ⟨_, (meshIfftn_ok_iff k hk rfft none _).mpr
+      ⟨_, hs, fun a ha => ifftShape_none_pos k hk rfft _ hs a ha, hd, rfl⟩⟩
+
+/-- **The k-mesh does not depend on where the mesh is**: two meshes with the same counts,
+extents, names, units and tolerance factor have the same k-mesh (both kinds); in particular the
+recentred mesh `Mesh.ifftn` returns transforms to the k-mesh of the original. -/
+theorem kmesh_position_independent (m m' : Mesh) (rfft : Bool) (h1 : m'.ndim = m.ndim) (h2 : m'.n = m.n)
+    (h3 : ∀ a, a < m.ndim → m'.region.edge a = m.region.edge a)
+    (hd : m'.region.dims = m.region.dims) (hu : m'.region.units = m.region.units)
+    (ht : m'.region.tol = m.region.tol) :
+    kMesh m' rfft = kMesh m rfft ∧ kMesh (originMesh m m.n) rfft = kMesh m rfft :=
+  ⟨kMesh_congr m m' rfft h1 h2 h3 hd hu ht, kMesh_originMesh m rfft⟩
+
+/-- **`Mesh.fftn ∘ Mesh.ifftn` on a k-mesh that did not come from `Mesh.fftn`.**  On every valid
+k-mesh whose stripped names are distinct both calls succeed; the result has the counts and cell
+sizes of the k-mesh and its zero frequency in cell `⌊n/2⌋`; and it IS the k-mesh exactly when the
+k-mesh is canonical (`KCanonical`: names `k_…`, units `(…)$^{-1}$`, cell `⌊n/2⌋` centred at 0, no
+bc, no subregions) — as every result of `Mesh.fftn` is. -/
+theorem fftn_ifftn_mesh (k : Mesh) (hk : k.Inv) (hd : hasDup (k.region.dims.map (stripPre "k_")) = false) :
+    ∃ b k', meshIfftn k false none = .ok b ∧ meshFftn b false = .ok k' ∧
+      (∀ a, a < k.ndim → k'.nAt a = k.nAt a ∧ k'.cellAt a = k.cellAt a ∧
+        k'.centreAx a ((k.nAt a / 2 : Nat) : Int) = 0) ∧
+      (KCanonical k → k' = k) ∧ (∀ m : Mesh, m.Inv → KCanonical (kMesh m false)) := by
+  have hr := rMesh_inv k hk k.n hk.2.1 hk.2.2 hd
+  have h1 : meshIfftn k false none = .ok (rMesh k k.n) :=
+    (meshIfftn_ok_iff k hk false none _).mpr ⟨k.n, ifftShape_false_none k, hk.2.2, hd, rfl⟩
+  have h2 := meshFftn_ok (rMesh k k.n) false hr
+  refine ⟨_, _, h1, h2, ?_, fun hc => kMesh_rMesh_of_canonical k hk hd hc, kMesh_canonical⟩
+  intro a ha
+  have := kMesh_rMesh_cell k hk hd a ha
+  refine ⟨this.1, this.2, ?_⟩
+  have hz := kcell_zero_frequency (rMesh k k.n) _ h2 hr a (by rw [rMesh_ndim]; exact ha)
+  exact hz
+
+/-! ### (d.3) inverse transforms of k-space fields that did not come from a forward transform -/
+
+section ring3
+variable {R : Type} [CommRing R]
+
+/-- **`Field.ifftn` on a valid field — acceptance as an equivalence, and the result.**  For every
+valid field (ANY k-space field, not only results of `fftn`): the call succeeds iff no two dimension
+names coincide once `k_` is stripped and no two component labels coincide once `ft_` is stripped;
+the result then lives on `mesh.ifftn()`, keeps component count and unit, strips `ft_` from every
+label and renames the mapping entry by entry (`ft_` off the keys, `k_` off the values). -/
+theorem ifftn_accepts_iff (ρs : List (Root R)) (f : CF R) (hf : CFInv f) (g : CF R) :
+    ifftn ρs f = .ok g ↔
+      hasDup (f.mesh.region.dims.map (stripPre "k_")) = false ∧
+      (∀ vs, f.vdims = some vs → hasDup (vs.map (stripPre "ft_")) = false) ∧
+      g = { mesh := rMesh f.mesh f.mesh.n, nvdim := f.nvdim, data := ifftnArr ρs f.nvdim f.data,
+            vdims := f.vdims.map fun vs => vs.map (stripPre "ft_"),
+            vmap := f.vmap.map fun p => (stripPre "ft_" p.1, stripPre "k_" p.2), unit := f.unit } :=
+  ifftn_ok_iff ρs f hf g
+
+/-- **`Field.irfftn(shape)` on a valid field — acceptance as an equivalence** (the model the
+driver runs, numpy's convention for inconsistent half spectra): the call succeeds iff the counts
+`s` derived from `shape` are accepted and positive and names and labels stay distinct once
+stripped; the result lives on `mesh.ifftn(rfft=True, shape)` and holds `irfftnArrNP` for the
+counts `s`.  Acceptance never depends on the data. -/
+theorem irfftn_accepts_iff (conj : R → R) (half : R) (ρs : List (Root R)) (f : CF R) (hf : CFInv f)
+    (shape : Option (List Nat)) (g : CF R) :
+    irfftnNP conj half ρs f shape = .ok g ↔
+      ∃ s, ifftShape f.mesh true shape = .ok s ∧ (∀ a, a < f.mesh.ndim → 0 < s.getD a 0) ∧
+        hasDup (f.mesh.region.dims.map (stripPre "k_")) = false ∧
+        (∀ vs, f.vdims = some vs → hasDup (vs.map (stripPre "ft_")) = false) ∧
+        g = { mesh := rMesh f.mesh s, nvdim := f.nvdim, data := irfftnArrNP conj half ρs f.nvdim s f.data,
+              vdims := f.vdims.map fun vs => vs.map (stripPre "ft_"),
+              vmap := f.vmap.map fun p => (stripPre "ft_" p.1, stripPre "k_" p.2), unit := f.unit } :=
+  irfftnNP_ok_iff conj half ρs f hf shape g
+
+/-- **Forward ∘ inverse = identity at field level**, for every valid k-space field with distinct
+stripped names and labels (hypotheses on the INPUT only): `F.ifftn()` and `F.ifftn().fftn()` both
+succeed; the result has the counts and cell sizes of `F`'s mesh with the zero frequency in cell
+`⌊n/2⌋`, the component count, the unit, labels `ft_ + (label without ft_)` and the original value in
+every cell and component; it lives on `F`'s own mesh whenever that mesh is canonical, and has `F`'s
+own labels whenever they all start with `ft_`. -/
+theorem fftn_ifftn (ρs : List (Root R)) (f : CF R) (hf : CFInv f) (hρ : Roots f.mesh.n ρs)
+    (hd : hasDup (f.mesh.region.dims.map (stripPre "k_")) = false)
+    (hlab : ∀ vs, f.vdims = some vs → hasDup (vs.map (stripPre "ft_")) = false) :
+    ∃ h g, ifftn ρs f = .ok h ∧ fftn ρs h = .ok g ∧
+      (∀ a, a < f.mesh.ndim → g.mesh.nAt a = f.mesh.nAt a ∧ g.mesh.cellAt a = f.mesh.cellAt a) ∧
+      (KCanonical f.mesh → g.mesh = f.mesh) ∧
+      g.nvdim = f.nvdim ∧ g.unit = f.unit ∧
+      g.vdims = f.vdims.map (fun vs => vs.map fun v => "ft_" ++ stripPre "ft_" v) ∧
+      g.vmap = f.vmap.map (fun p => ("ft_" ++ stripPre "ft_" p.1, "k_" ++ stripPre "k_" p.2)) ∧
+      ((∀ vs, f.vdims = some vs → ∀ v ∈ vs, "ft_".toList.isPrefixOf v.toList = true) → g.vdims = f.vdims) ∧
+      ∀ m, inRange f.mesh.n m = true → ∀ c, c < f.nvdim → compA g.data c m = compA f.data c m := by
+  refine ⟨_, _, (ifftn_ok_iff ρs f hf _).mpr ⟨hd, hlab, rfl⟩, fftn_ifftn_ok ρs f hf hd hlab,
+    fun a ha => kMesh_rMesh_cell f.mesh hf.mesh hd a ha,
+    fun hc => kMesh_rMesh_of_canonical f.mesh hf.mesh hd hc, rfl, rfl, ?_, ?_, ?_, ?_⟩
+  · show fwdLabels (f.vdims.map fun vs => vs.map (stripPre "ft_")) = _
+    cases f.vdims with
+    | none => rfl
+    | some vs => simp [fwdLabels, List.map_map, Function.comp_def]
+  · show fwdMap (f.vmap.map fun p => (stripPre "ft_" p.1, stripPre "k_" p.2)) = _
+    simp [fwdMap, List.map_map, Function.comp_def]
+  · intro hpre
+    show fwdLabels (f.vdims.map fun vs => vs.map (stripPre "ft_")) = f.vdims
+    cases hv : f.vdims with
+    | none => rfl
+    | some vs =>
+      simp only [fwdLabels, Option.map_some, List.map_map, Option.some.injEq]
+      conv => rhs; rw [← List.map_id vs]
+      apply List.map_congr_left
+      intro v hvm
+      exact pre_strip "ft_" v (hpre vs hv v hvm)
+  · intro m hm c hc
+    rw [← hf.shape] at hm hρ
+    exact fftn_ifftn_arr ρs f.nvdim f.data hρ m hm c hc
+
+/-! ### (d.4) `irfftn` as one sum; numpy's convention on arbitrary half spectra -/
+
+/-- **The real inverse transform is the inverse DFT of the Hermitian extension, as ONE sum.**
+For the model of `irfftn` on Hermitian-consistent input (`irfftn`), every component of every
+real-space cell `j` of the result holds `Π_a(1/s_a)` times the sum over ALL cells `m` of the
+output box `s` (the counts `mesh.ifftn(rfft=True, shape)` returns — even or odd last count) of
+`Ã[m] · Π_{a<last} wi_a^(m_a j_a) w_a^(⌊s_a/2⌋ j_a) · wi_last^(m_last j_last)`, i.e. `Ã[m]·exp(+2πi k_m·r_j)`,
+where `Ã` is the array itself for last index `≤ ⌊s_last/2⌋` and the conjugate of the mirror cell
+beyond (`hermExtS`, in the array's own coordinates: leading axes shifted, last axis not). -/
+theorem irfftn_is_idft (conj : R → R) (ρs : List (Root R)) (f g : CF R) (hf : CFInv f) (shape : Option (List Nat))
+    (h : irfftn conj ρs f shape = .ok g) (hρ : Roots g.mesh.n ρs) (j : List Nat) (c : Nat) (hc : c < f.nvdim) :
+    compA g.data c j = ninvProd ρs g.mesh.n * sumBox g.mesh.n fun m =>
+      hermExtS conj g.mesh.n (compA f.data c) m * phaseR (ρs.map Root.swap) g.mesh.n m j := by
+  obtain ⟨s, hs, _, _, _, rfl⟩ := (irfftn_ok_iff conj ρs f hf shape g).mp h
+  have hsh : f.data.shape = halfShape s := by rw [ifftShape_half f.mesh hf.mesh shape s hs]; exact hf.shape
+  exact irfftnArr_is_idft conj ρs f.nvdim s f.data hsh hρ j c hc
+
+/-- **What the library computes on ANY half spectrum, as one sum** (`irfftnNP`, numpy's
+convention): the same inverse DFT of the Hermitian extension, after the two last-axis planes that
+are their own mirror image (last index 0 and, for an even output count, `s_last/2`) were replaced
+by their Hermitian part `(A[m] + conj A[mirror m])/2` — pocketfft ignores the imaginary part of
+these entries once the leading axes are inverted. -/
+theorem irfftn_np_is_idft (conj : R → R) (half : R) (ρs : List (Root R)) (f g : CF R) (hf : CFInv f)
+    (shape : Option (List Nat)) (h : irfftnNP conj half ρs f shape = .ok g) (hρ : Roots g.mesh.n ρs)
+    (j : List Nat) (c : Nat) (hc : c < f.nvdim) :
+    compA g.data c j = ninvProd ρs g.mesh.n * sumBox g.mesh.n fun m =>
+      hermExtS conj g.mesh.n (symPlanes conj half g.mesh.n (compA f.data c)) m *
+        phaseR (ρs.map Root.swap) g.mesh.n m j := by
+  obtain ⟨s, hs, _, _, _, rfl⟩ := (irfftnNP_ok_iff conj half ρs f hf shape g).mp h
+  have hsh : f.data.shape = halfShape s := by rw [ifftShape_half f.mesh hf.mesh shape s hs]; exact hf.shape
+  exact irfftnArrNP_is_idft conj half ρs f.nvdim s f.data hsh hρ j c hc
+
+/-- **On Hermitian-consistent half spectra the library's `irfftn` is the plain one**: if every
+component of the array is conjugate-symmetric on its self-mirror planes (`HermPlanes`: what
+`rfftn` of real data produces), `irfftnNP` and `irfftn` succeed together and agree in mesh,
+labels, mapping, unit and every value — so every theorem about `irfftn` (`irfftn_rfftn`,
+`irfftn_is_idft`, `irfftn_returns_real`, …) is a theorem about what the library computes. -/
+theorem irfftn_np_eq_irfftn (conj : R → R) (half : R) (hh : half * 2 = 1) (ρs : List (Root R)) (f : CF R)
+    (hf : CFInv f) (shape : Option (List Nat)) (g : CF R) (h : irfftnNP conj half ρs f shape = .ok g)
+    (hcons : ∀ c, c < f.nvdim → HermPlanes conj g.mesh.n (compA f.data c)) :
+    ∃ g', irfftn conj ρs f shape = .ok g' ∧ g'.mesh = g.mesh ∧ g'.nvdim = g.nvdim ∧ g'.vdims = g.vdims ∧
+      g'.vmap = g.vmap ∧ g'.unit = g.unit ∧
+      ∀ j c, c < f.nvdim → compA g'.data c j = compA g.data c j := by
+  obtain ⟨s, hs, hp, hd, hl, rfl⟩ := (irfftnNP_ok_iff conj half ρs f hf shape g).mp h
+  have hsh : f.data.shape = halfShape s := by rw [ifftShape_half f.mesh hf.mesh shape s hs]; exact hf.shape
+  refine ⟨_, (irfftn_ok_iff conj ρs f hf shape _).mpr ⟨s, hs, hp, hd, hl, rfl⟩, rfl, rfl, rfl, rfl, rfl, ?_⟩
+  intro j c hc
+  exact (irfftnArrNP_eq_of_consistent conj half hh ρs f.nvdim s f.data hsh c hc (hcons c hc) j).symm
+
+/-- **The library's `irfftn` returns real data on EVERY half spectrum** (no consistency
+hypothesis): every cell and component of `irfftnNP` is fixed by the conjugation, for even and odd
+output counts. -/
+theorem irfftn_np_returns_real (conj : R → R) (hc : IsConj conj) (hinv : ∀ x, conj (conj x) = x) (half : R)
+    (hh : half * 2 = 1) (ρs : List (Root R)) (f g : CF R) (hf : CFInv f) (shape : Option (List Nat))
+    (h : irfftnNP conj half ρs f shape = .ok g) (hρ : Roots g.mesh.n ρs) (hcr : ConjRoots conj g.mesh.n ρs)
+    (j : List Nat) (c : Nat) (hcv : c < f.nvdim) :
+    conj (compA g.data c j) = compA g.data c j := by
+  obtain ⟨s, hs, _, _, _, rfl⟩ := (irfftnNP_ok_iff conj half ρs f hf shape g).mp h
+  have hsh : f.data.shape = halfShape s := by rw [ifftShape_half f.mesh hf.mesh shape s hs]; exact hf.shape
+  exact irfftnArrNP_real conj hc hinv half hh ρs f.nvdim s f.data hsh hρ hcr c hcv j
+
+/-- **Real forward ∘ real inverse at field level**, for every valid half-spectrum field with
+distinct stripped names and labels and every accepted `shape`: `G.irfftn(shape)` and
+`G.irfftn(shape).rfftn()` both succeed; the result has the counts and cell sizes of `G`'s mesh,
+component count and unit, and holds in every cell the half spectrum with its self-mirror planes
+replaced by their Hermitian part — `G` itself in every cell exactly where `G` is consistent
+(`symPlanes_of_consistent`), in particular on every cell off the two planes. -/
+theorem rfftn_irfftn (conj : R → R) (half : R) (ρs : List (Root R)) (f : CF R) (hf : CFInv f)
+    (shape : Option (List Nat)) (s : List Nat) (hs : ifftShape f.mesh true shape = .ok s)
+    (hp : ∀ a, a < f.mesh.ndim → 0 < s.getD a 0) (hρ : Roots s ρs)
+    (hd : hasDup (f.mesh.region.dims.map (stripPre "k_")) = false)
+    (hlab : ∀ vs, f.vdims = some vs → hasDup (vs.map (stripPre "ft_")) = false) :
+    ∃ h g, irfftnNP conj half ρs f shape = .ok h ∧ rfftn ρs h = .ok g ∧ h.mesh.n = s ∧
+      g.mesh.n = f.mesh.n ∧ (∀ a, a < f.mesh.ndim → g.mesh.cellAt a = f.mesh.cellAt a) ∧
+      g.nvdim = f.nvdim ∧ g.unit = f.unit ∧
+      g.vdims = f.vdims.map (fun vs => vs.map fun v => "ft_" ++ stripPre "ft_" v) ∧
+      g.vmap = f.vmap.map (fun p => ("ft_" ++ stripPre "ft_" p.1, "k_" ++ stripPre "k_" p.2)) ∧
+      (∀ m, inRange f.mesh.n m = true → ∀ c, c < f.nvdim →
+        compA g.data c m = symPlanes conj half s (compA f.data c) m) ∧
+      (∀ m, inRange f.mesh.n m = true → ∀ c, c < f.nvdim →
+        ¬ (m.getLastD 0 = 0 ∨ 2 * m.getLastD 0 = s.getLastD 0) → compA g.data c m = compA f.data c m) := by
+  have hl := ifftShape_length f.mesh true shape s hf.mesh.2.1 hs
+  have hhalf := ifftShape_half f.mesh hf.mesh shape s hs
+  have hsh : f.data.shape = halfShape s := by rw [hhalf]; exact hf.shape
+  have hpos : ∀ n ∈ s, 0 < n := by
+    intro n hn
+    obtain ⟨i, hi, rfl⟩ := List.getElem_of_mem hn
+    have := hp i (by omega)
+    simpa [List.getD_eq_getElem?_getD, hi] using this
+  have hcell := kMesh_rMesh_cell_half f.mesh hf.mesh hd s hl hp
+  have hval : ∀ m, inRange f.mesh.n m = true → ∀ c, c < f.nvdim →
+      compA (rfftnArr ρs f.nvdim (irfftnArrNP conj half ρs f.nvdim s f.data)) c m
+        = symPlanes conj half s (compA f.data c) m := by
+    intro m hm c hc
+    rw [← hhalf] at hm
+    exact rfftn_irfftnNP_arr conj half ρs f.nvdim s f.data hsh hpos hρ m hm c hc
+  refine ⟨_, _, (irfftnNP_ok_iff conj half ρs f hf shape _).mpr ⟨s, hs, hp, hd, hlab, rfl⟩,
+    rfftn_irfftnNP_ok conj half ρs f hf s hl hp hd hlab, rfl, by rw [← hhalf]; exact hcell.1, hcell.2, rfl, rfl,
+    ?_, ?_, hval, ?_⟩
+  · show fwdLabels (f.vdims.map fun vs => vs.map (stripPre "ft_")) = _
+    cases f.vdims with
+    | none => rfl
+    | some vs => simp [fwdLabels, List.map_map, Function.comp_def]
+  · show fwdMap (f.vmap.map fun p => (stripPre "ft_" p.1, stripPre "k_" p.2)) = _
+    simp [fwdMap, List.map_map, Function.comp_def]
+  intro m hm c hc hnp
+  rw [hval m hm c hc]
+  unfold symPlanes
+  rw [if_neg hnp]
+
+end ring3
+
+/-! ### (d.5) shift theorem, linearity at field level -/
+
+section ring4
+variable {R : Type} [CommRing R]
+
+/-- **Shift theorem.**  Let `f'` be the field `f` translated cyclically by whole cells,
+`t = (t_a)` cells along axis `a` (same mesh, `f'[r] = f[(r - t) mod n]`).  Then in every k-cell `m`
+and component, `Field.fftn` of `f'` holds the value for `f` times
+`phase(m, t) = Π_a w_a^(m_a t_a) wi_a^(⌊n_a/2⌋ t_a) = exp(-2πi k_m·(t·cell))`, the phase of the
+translation vector at that k-cell's frequency (`phase_is_k_dot_r`); same mesh, labels, unit. -/
+theorem fftn_shift_theorem (ρs : List (Root R)) (f g g' : CF R) (t : List Nat) (ht : t.length = f.data.shape.length)
+    (h : fftn ρs f = .ok g) (h' : fftn ρs { f with data := rollArr t f.data } = .ok g')
+    (hρ : Roots f.data.shape ρs) (m : List Nat) (hm : inRange f.data.shape m = true) (c : Nat) (hc : c < f.nvdim) :
+    g'.mesh = g.mesh ∧ compA g'.data c m = phase ρs f.data.shape m t * compA g.data c m := by
+  unfold fftn at h h'
+  simp only at h'
+  split at h
+  · cases h
+  · rename_i k hk
+    rw [hk] at h'
+    simp only at h'
+    rw [(finish_ok h).2.1, (finish_ok h').2.1, (finish_ok h).1, (finish_ok h').1]
+    exact ⟨rfl, fftnArr_translate ρs f.nvdim f.data hρ t ht m hm c hc⟩
+
+/-- the shift theorem for the real transform: the last axis contributes `w^(m_last t_last)`
+(unshifted index) -/
+theorem rfftn_shift_theorem (ρs : List (Root R)) (f g g' : CF R) (t : List Nat) (ht : t.length = f.data.shape.length)
+    (h : rfftn ρs f = .ok g) (h' : rfftn ρs { f with data := rollArr t f.data } = .ok g')
+    (hρ : Roots f.data.shape ρs) (m : List Nat) (hm : inRange (halfShape f.data.shape) m = true)
+    (c : Nat) (hc : c < f.nvdim) :
+    g'.mesh = g.mesh ∧ compA g'.data c m = phaseR ρs f.data.shape m t * compA g.data c m := by
+  unfold rfftn at h h'
+  simp only at h'
+  split at h
+  · cases h
+  · rename_i k hk
+    rw [hk] at h'
+    simp only at h'
+    rw [(finish_ok h).2.1, (finish_ok h').2.1, (finish_ok h).1, (finish_ok h').1]
+    exact ⟨rfl, rfftnArr_translate ρs f.nvdim f.data hρ t ht m hm c hc⟩
+
+/-- a translation by zero cells, or by a whole period along every axis, is no translation -/
+theorem roll_full_period (ns r : List Nat) (hr : inRange ns r = true) : rollIdx ns ns r = r ∧
+    rollIdx ns (ns.map fun _ => 0) r = r := by
+  induction ns generalizing r with
+  | nil => cases r <;> simp_all [inRange, rollIdx]
+  | cons n ns ih =>
+    cases r with
+    | nil => simp [inRange] at hr
+    | cons r0 rs =>
+      rw [inRange_cons] at hr
+      simp only [rollIdx, List.map_cons, (ih rs hr.2).1, (ih rs hr.2).2, Nat.mod_self, Nat.zero_mod, Nat.sub_zero]
+      have : (r0 + n) % n = r0 := by rw [Nat.add_mod_right, Nat.mod_eq_of_lt hr.1]
+      rw [this]
+      exact ⟨rfl, rfl⟩
+
+/-- **Linearity at field level**: if three fields on one mesh with the same component count and
+labels satisfy `f₃ = α·f₁ + β·f₂` cell by cell, then so do their `Field.fftn` (which all succeed
+or fail together, on the same k-mesh) — and likewise `Field.rfftn` and `Field.ifftn`. -/
+theorem fftn_linear_field (ρs : List (Root R)) (f1 f2 f3 g1 g2 g3 : CF R) (α β : R)
+    (hm2 : f2.mesh = f1.mesh) (hm3 : f3.mesh = f1.mesh) (hn2 : f2.nvdim = f1.nvdim) (hn3 : f3.nvdim = f1.nvdim)
+    (hs2 : f2.data.shape = f1.data.shape) (hs3 : f3.data.shape = f1.data.shape)
+    (hab : ∀ i c, compA f3.data c i = α * compA f1.data c i + β * compA f2.data c i)
+    (m : List Nat) (c : Nat) (hc : c < f1.nvdim) :
+    (fftn ρs f1 = .ok g1 → fftn ρs f2 = .ok g2 → fftn ρs f3 = .ok g3 →
+      g2.mesh = g1.mesh ∧ g3.mesh = g1.mesh ∧ compA g3.data c m = α * compA g1.data c m + β * compA g2.data c m) ∧
+    (rfftn ρs f1 = .ok g1 → rfftn ρs f2 = .ok g2 → rfftn ρs f3 = .ok g3 →
+      g2.mesh = g1.mesh ∧ g3.mesh = g1.mesh ∧ compA g3.data c m = α * compA g1.data c m + β * compA g2.data c m) ∧
+    (ifftn ρs f1 = .ok g1 → ifftn ρs f2 = .ok g2 → ifftn ρs f3 = .ok g3 →
+      g2.mesh = g1.mesh ∧ g3.mesh = g1.mesh ∧ compA g3.data c m = α * compA g1.data c m + β * compA g2.data c m) := by
+  refine ⟨?_, ?_, ?_⟩
+  · intro h1 h2 h3
+    unfold fftn at h1 h2 h3
+    rw [hm2] at h2; rw [hm3] at h3
+    split at h1
+    · cases h1
+    · rename_i k hk
+      rw [hk] at h2 h3
+      simp only at h2 h3
+      rw [(finish_ok h1).2.1, (finish_ok h2).2.1, (finish_ok h3).2.1, (finish_ok h1).1, (finish_ok h2).1,
+        (finish_ok h3).1, hn2, hn3]
+      exact ⟨rfl, rfl, fft_linear ρs f1.nvdim f1.data f2.data f3.data α β hs2 hs3 hab m c hc⟩
+  · intro h1 h2 h3
+    unfold rfftn at h1 h2 h3
+    rw [hm2] at h2; rw [hm3] at h3
+    split at h1
+    · cases h1
+    · rename_i k hk
+      rw [hk] at h2 h3
+      simp only at h2 h3
+      rw [(finish_ok h1).2.1, (finish_ok h2).2.1, (finish_ok h3).2.1, (finish_ok h1).1, (finish_ok h2).1,
+        (finish_ok h3).1, hn2, hn3]
+      exact ⟨rfl, rfl, rfft_linear ρs f1.nvdim f1.data f2.data f3.data α β hs2 hs3 hab m c hc⟩
+  · intro h1 h2 h3
+    unfold ifftn at h1 h2 h3
+    rw [hm2] at h2; rw [hm3] at h3
+    split at h1
+    · cases h1
+    · rename_i k hk
+      rw [hk] at h2 h3
+      simp only at h2 h3
+      rw [(finish_ok h1).2.1, (finish_ok h2).2.1, (finish_ok h3).2.1, (finish_ok h1).1, (finish_ok h2).1,
+        (finish_ok h3).1, hn2, hn3]
+      exact ⟨rfl, rfl, ifftn_linear ρs f1.nvdim f1.data f2.data f3.data α β hs2 hs3 hab m c hc⟩
+
+end ring4
+
+/-! ### (d.6) the value theorems over ℂ with the phase written as `exp(∓2πi k·r)` -/
+
+/-- **The property statement, verbatim, for complex fields.**  On every valid field with complex
+data `Field.fftn` (run with the roots `exp(-2πi/n_a)`) succeeds, and every component of every
+k-cell `m` holds `Σ_r value(r) · exp(-2πi k·r)`: the sum over all real-space cells `r` with
+`k·r = Σ_a k_a · (r_a · cell_a)`, `k_a` the coordinate of the centre of k-cell `m` of the k-mesh
+`mesh.fftn()` and `r_a·cell_a` the position of cell `r` counted from the first cell. -/
+theorem fftn_is_dft_exp (f : CF ℂ) (hf : CFInv f) :
+    ∃ k g, meshFftn f.mesh false = .ok k ∧ fftn (f.mesh.n.map cRoot) f = .ok g ∧ g.mesh = k ∧
+      ∀ m, inRange f.mesh.n m = true → ∀ c, c < f.nvdim →
+        compA g.data c m = sumBox f.mesh.n fun r => compA f.data c r *
+          Complex.exp (-(2 * Real.pi * Complex.I) *
+            ((sumN f.mesh.ndim fun a => k.centreAx a ((m.getD a 0 : Nat) : Int) *
+              ((r.getD a 0 : ℚ) * f.mesh.cellAt a) : ℚ) : ℂ)) := by
+  have hk := meshFftn_ok f.mesh false hf.mesh
+  have hg := fftn_ok (f.mesh.n.map cRoot) f hf
+  refine ⟨_, _, hk, hg, rfl, ?_⟩
+  intro m hm c hc
+  have hpos := mesh_counts_pos f.mesh hf.mesh
+  have hρ : Roots f.data.shape (f.mesh.n.map cRoot) := by rw [hf.shape]; exact cRoots f.mesh.n hpos
+  rw [fftn_is_dft _ f _ hg hρ m (by rw [hf.shape]; exact hm) c hc, hf.shape]
+  apply sumBox_congr
+  intro r _
+  rw [phase_complex f.mesh.n hpos m r, kr_eq_sumN, hf.mesh.2.1]
+  congr 4
+  apply sumN_congr
+  intro a ha
+  rw [phase_is_k_dot_r f.mesh _ hk hf.mesh a ha]
+  rfl
+
+/-- **The same for the inverse transform**: on every valid complex k-space field accepted by
+`Field.ifftn`, every component of every real-space cell `j` holds
+`(1/N) Σ_m value(m) · exp(+2πi κ_m·j)` with `κ_m·j = Σ_a (m_a - ⌊n_a/2⌋)·j_a / n_a` — the k-cell
+centres of `mesh.ifftn().fftn()` times the cell positions of `mesh.ifftn()` (`kr_is_k_dot_r`). -/
+theorem ifftn_is_idft_exp (f g : CF ℂ) (hf : CFInv f) (h : ifftn (f.mesh.n.map cRoot) f = .ok g)
+    (j : List Nat) (c : Nat) (hc : c < f.nvdim) :
+    compA g.data c j = ninvProd (f.mesh.n.map cRoot) f.mesh.n * sumBox f.mesh.n fun m =>
+      compA f.data c m * Complex.exp ((2 * Real.pi * Complex.I) * ((kr f.mesh.n m j : ℚ) : ℂ)) := by
+  have hpos := mesh_counts_pos f.mesh hf.mesh
+  have hρ : Roots f.data.shape (f.mesh.n.map cRoot) := by rw [hf.shape]; exact cRoots f.mesh.n hpos
+  rw [ifftn_is_idft _ f g h hρ j c hc, hf.shape]
+  congr 1
+  apply sumBox_congr
+  intro m _
+  rw [phase_swap_complex f.mesh.n hpos m j]
+
+/-- `kr` is `k·r`: for the k-mesh of ANY valid mesh with the counts `ns`, `kr ns m r` is the dot
+product of the centre of k-cell `m` with the position of cell `r` counted from the first cell -/
+theorem kr_is_k_dot_r (msh k : Mesh) (hm : msh.Inv) (h : meshFftn msh false = .ok k) (m r : List Nat) :
+    kr msh.n m r = sumN msh.ndim fun a => k.centreAx a ((m.getD a 0 : Nat) : Int) * ((r.getD a 0 : ℚ) * msh.cellAt a) := by
+  rw [kr_eq_sumN, hm.2.1]
+  apply sumN_congr
+  intro a ha
+  rw [phase_is_k_dot_r msh k h hm a ha]
+  rfl
+
+/-- **The real transform over ℂ**: every component of every cell `m` of `Field.rfftn` holds
+`Σ_r value(r) · exp(-2πi κ·r)` with `κ·r = Σ_{a<last} (m_a - ⌊n_a/2⌋) r_a / n_a + m_last r_last / n_last`
+(last axis unshifted: the centres of `mesh.fftn(rfft=True)`, `kcell_centres_rfft`). -/
+theorem rfftn_is_dft_exp (f : CF ℂ) (hf : CFInv f) :
+    ∃ g, rfftn (f.mesh.n.map cRoot) f = .ok g ∧ meshFftn f.mesh true = .ok g.mesh ∧
+      ∀ m, inRange (halfShape f.mesh.n) m = true → ∀ c, c < f.nvdim →
+        compA g.data c m = sumBox f.mesh.n fun r => compA f.data c r *
+          Complex.exp (-(2 * Real.pi * Complex.I) * ((krR f.mesh.n m r : ℚ) : ℂ)) := by
+  have hg := rfftn_ok (f.mesh.n.map cRoot) f hf
+  refine ⟨_, hg, meshFftn_ok f.mesh true hf.mesh, ?_⟩
+  intro m hm c hc
+  have hpos := mesh_counts_pos f.mesh hf.mesh
+  have hρ : Roots f.data.shape (f.mesh.n.map cRoot) := by rw [hf.shape]; exact cRoots f.mesh.n hpos
+  rw [rfftn_is_dft _ f _ hg hρ m (by rw [hf.shape]; exact hm) c hc, hf.shape]
+  apply sumBox_congr
+  intro r _
+  rw [phaseR_complex f.mesh.n hpos m r]
+
+/-! ### (d.7) the driver runs the library-convention `irfftn` -/
+
+section natural2
+variable {S R : Type} [Zero S] [One S] [Add S] [Mul S] [Zero R] [One R] [Add R] [Mul R]
+
+/-- `Field.irfftn` in the library's convention is natural in its carrier too: for every map `φ`
+preserving `0 1 + *` that intertwines the conjugations, with the image of the constant `half` -/
+theorem irfftn_np_commutes_with_hom (φ : S → R) (h : IsHom φ) (cS : S → S) (cR : R → R)
+    (hc : ∀ x, φ (cS x) = cR (φ x)) (hS : S) (ρs : List (Root S)) (f : CF S) (shape : Option (List Nat)) :
+    irfftnNP cR (φ hS) (ρs.map (Root.map φ)) (f.map φ) shape = mapM φ (irfftnNP cS hS ρs f shape) :=
+  h.irfftnNP cS cR hc hS ρs f shape
+
+end natural2
+
+section driver2
+variable {R : Type} [CommRing R]
+
+/-- **What the driver computes for `irfftn`, evaluated, is the library-convention model over
+`R`**: the driver runs `irfftnNP (Poly.conj s) Poly.half (Poly.roots s) f shape` with `s` the output
+counts; evaluating every cell is the same as running `irfftnNP` over `R` with the evaluated roots,
+the conjugation of `R` and the value of the constant `1/2`, which satisfies `half·2 = 1` — the
+hypothesis of `irfftn_np_eq_irfftn` / `irfftn_np_returns_real`. -/
+theorem driver_irfftn_np_evaluates_to_model (ev : Ev R) (conj : R → R) (s : List Nat) (hc : ev.ConjOK conj s.length)
+    (hpos : ∀ a, a < s.length → 0 < s.getD a 1) (hζ : ∀ a, a < s.length → ev.ζ a ^ s.getD a 1 = 1)
+    (f : CF Poly) (shape : Option (List Nat)) :
+    mapM (ev.eval s.length) (irfftnNP (Poly.conj s) Poly.half (Poly.roots s) f shape)
+      = irfftnNP conj (ev.eval s.length Poly.half) (ev.roots s) (f.map (ev.eval s.length)) shape ∧
+    ev.eval s.length Poly.half * 2 = 1 := by
+  refine ⟨?_, ?_⟩
+  · rw [← (ev.eval_isHom s.length).irfftnNP (Poly.conj s) conj (fun p => ev.eval_conj conj s hc hpos hζ p),
+      ev.eval_roots]
+  · show ev.eval s.length (Poly.const (1 / 2) 0) * 2 = 1
+    rw [ev.eval_const]
+    simp only [Ev.coef, map_zero, zero_mul, add_zero]
+    rw [← map_ofNat ev.q 2, ← map_mul]
+    norm_num
+
+end driver2
+
+/-! ### (d.8) the real round trip in the library's convention -/
+
+section ring5
+variable {R : Type} [CommRing R]
+
+/-- **What `rfftn` produces is Hermitian on its self-mirror planes, in the array's own
+coordinates** (`HermPlanes`, the hypothesis of `irfftn_np_eq_irfftn`) — on every plane in fact. -/
+theorem rfftn_output_hermitian_planes (conj : R → R) (hc : IsConj conj) (ρs : List (Root R)) (nv : Nat)
+    (a : NDA (List R)) (hρ : Roots a.shape ρs) (hcr : ConjRoots conj a.shape ρs)
+    (hreal : ∀ i c, conj (compA a c i) = compA a c i) (c : Nat) (hcv : c < nv) :
+    HermPlanes conj a.shape (compA (rfftnArr ρs nv a) c) := by
+  intro m hm _
+  have h := rfftnArr_consistent conj hc ρs nv a hρ hcr hreal c hcv (fshiftR a.shape m)
+    (fshiftR_inRange_full a.shape m hm)
+  have hs : (rfftnArr ρs nv a).shape = halfShape a.shape := rfl
+  rw [hs, ishiftR_half a.shape _ (by rw [fshiftR_length]; exact inRange_length _ _ hm),
+    ishiftR_fshiftR_full a.shape m hm,
+    ishiftR_half a.shape _ (negIdx_length a.shape _ (fshiftR_inRange_full a.shape m hm))] at h
+  exact h
+
+/-- **Real round trip for what the library computes**: on every valid field with conj-fixed
+("real") data, `f.rfftn().irfftn(shape=f.mesh.n)` in the library's convention (`irfftnNP`)
+succeeds and restores mesh counts, extent, names, units (centred at the origin), component count,
+unit, labels, mapping and every value — even and odd last counts alike. -/
+theorem irfftn_np_rfftn (conj : R → R) (hc : IsConj conj) (half : R) (hh : half * 2 = 1) (ρs : List (Root R))
+    (f : CF R) (hf : CFInv f) (hρ : Roots f.mesh.n ρs) (hcr : ConjRoots conj f.mesh.n ρs)
+    (hreal : ∀ i c, conj (compA f.data c i) = compA f.data c i) :
+    ∃ g h, rfftn ρs f = .ok g ∧ irfftnNP conj half ρs g (some f.mesh.n) = .ok h ∧
+      h.mesh = originMesh f.mesh f.mesh.n ∧ h.nvdim = f.nvdim ∧ h.unit = f.unit ∧
+      h.vdims = f.vdims ∧ h.vmap = f.vmap ∧
+      ∀ j, inRange f.mesh.n j = true → ∀ c, c < f.nvdim → compA h.data c j = compA f.data c j := by
+  obtain ⟨g, h0, hg, hh0, _, hm0, hn0, hu0, hv0, hp0, hval⟩ := irfftn_rfftn conj hc ρs f hf hρ hcr hreal
+  have hgd : g = { mesh := kMesh f.mesh true, nvdim := f.nvdim, data := rfftnArr ρs f.nvdim f.data,
+                   vdims := fwdLabels f.vdims, vmap := fwdMap f.vmap, unit := f.unit } := by
+    rw [rfftn_ok ρs f hf] at hg; injection hg with hg; exact hg.symm
+  have hshape : (rfftnArr ρs f.nvdim f.data).shape = (kMesh f.mesh true).n := by
+    rw [kMesh_n_half f.mesh hf.mesh, ← hf.shape]; rfl
+  have hginv : CFInv g := by
+    rw [hgd]; exact fwd_inv f hf (kMesh f.mesh true) (kMesh_inv f.mesh true hf.mesh) _ hshape
+  obtain ⟨s, hs, hp, hd, hl, hres⟩ := (irfftn_ok_iff conj ρs g hginv (some f.mesh.n) h0).mp hh0
+  have hsn : s = f.mesh.n := ((ifftShape_some_ok_iff g.mesh true f.mesh.n s).mp hs).1
+  subst hsn
+  refine ⟨g, _, hg, (irfftnNP_ok_iff conj half ρs g hginv (some f.mesh.n) _).mpr ⟨_, hs, hp, hd, hl, rfl⟩, ?_, ?_, ?_, ?_, ?_, ?_⟩
+  · rw [← hm0, hres]
+  · rw [← hn0, hres]
+  · rw [← hu0, hres]
+  · rw [← hv0, hres]
+  · rw [← hp0, hres]
+  · intro j hj c hcv
+    rw [← hval j hj c hcv, hres]
+    have hcv' : c < g.nvdim := by rw [hgd]; exact hcv
+    have hsh : g.data.shape = halfShape f.mesh.n := by rw [hgd, ← hf.shape]; rfl
+    show compA (irfftnArrNP conj half ρs g.nvdim f.mesh.n g.data) c j = compA (irfftnArr conj ρs g.nvdim f.mesh.n g.data) c j
+    apply irfftnArrNP_eq_of_consistent conj half hh ρs g.nvdim f.mesh.n g.data hsh c hcv'
+    rw [hgd]
+    rw [← hf.shape] at hρ hcr ⊢
+    exact rfftn_output_hermitian_planes conj hc ρs f.nvdim f.data hρ hcr hreal c hcv
+
+end ring5
+
+/-! ### (d.9) per component at field level; Hermitian spectra have real inverse transforms -/
+
+section ring6
+variable {R : Type} [CommRing R]
+
+/-- **Transforms act per component, at field level**: whenever `Field.fftn` succeeds on a field,
+it succeeds on the scalar field made of its component `c` alone (same mesh, no labels), on the
+same k-mesh, and that transform is component `c` of the transform of the whole field. -/
+theorem fftn_componentwise_field (ρs : List (Root R)) (f g : CF R) (h : fftn ρs f = .ok g) (c : Nat) (hc : c < f.nvdim) :
+    ∃ gc, fftn ρs { mesh := f.mesh, nvdim := 1, data := ⟨f.data.shape, fun i => [compA f.data c i]⟩,
+                    vdims := none, vmap := [], unit := f.unit } = .ok gc ∧
+      gc.mesh = g.mesh ∧ gc.nvdim = 1 ∧ ∀ m, compA gc.data 0 m = compA g.data c m := by
+  unfold fftn at h ⊢
+  simp only
+  split at h
+  · cases h
+  · rename_i k hk
+    have hfo := finish_ok h
+    have hshape : (fftnArr ρs 1 ⟨f.data.shape, fun i => [compA f.data c i]⟩).shape = k.n := hfo.2.2.2.2
+    refine ⟨_, by unfold finish; exact mkCF_scalar k _ f.unit hshape, hfo.1.symm, rfl, ?_⟩
+    intro m
+    rw [hfo.2.1]
+    exact (fft_componentwise ρs f.nvdim f.data c hc m).symm
+
+/-- **A Hermitian spectrum has a real inverse transform** (the converse of `spectrum_hermitian`):
+if in every k-cell the mirror cell holds the conjugate value, every cell and component of
+`Field.ifftn` is fixed by the conjugation. -/
+theorem ifftn_of_hermitian_is_real (conj : R → R) (hc : IsConj conj) (ρs : List (Root R)) (f g : CF R)
+    (h : ifftn ρs f = .ok g) (hρ : Roots f.data.shape ρs) (hcr : ConjRoots conj f.data.shape ρs)
+    (c : Nat) (hcv : c < f.nvdim)
+    (hherm : ∀ m, inRange f.data.shape m = true → conj (compA f.data c (mirror f.data.shape m)) = compA f.data c m)
+    (j : List Nat) : conj (compA g.data c j) = compA g.data c j := by
+  unfold ifftn at h
+  split at h
+  · cases h
+  · rw [(finish_ok h).2.1, ifftnArr_get _ _ _ _ _ hcv]
+    apply idftN_real conj hc ρs f.data.shape hρ hcr
+    intro k hk
+    have hnk := negIdx_inRange f.data.shape k hk
+    have := hherm (ishift f.data.shape (negIdx f.data.shape k)) (ishift_inRange _ _ hnk)
+    unfold mirror at this
+    rw [fshift_ishift _ _ hnk, negIdx_negIdx _ _ hk] at this
+    exact this
+
+end ring6
+
+/-! ### (d.10) end to end for the driver's `irfftn` -/
+
+section driver3
+variable {R : Type} [CommRing R]
+
+/-- **The driver's printed real inverse transform is the one-sum inverse DFT of the symmetrised
+Hermitian extension.**  End to end for `Field.irfftn` in the library's convention: take the
+symbolic result `g` of the driver's run on a valid symbolic half-spectrum field `f` with output
+counts `s`, the printed dense table of any component of any cell `j`, and evaluate it the harness's
+way with primitive roots: the value is `Π(1/s_a) Σ_m Ã[m]·exp(+2πi k_m·r_j)` over all cells `m` of
+the output box, `Ã` the Hermitian extension (array coordinates) of the evaluated input whose
+self-mirror planes were replaced by their Hermitian part. -/
+theorem driver_irfftn_is_idft (ev : Ev R) (conj : R → R) (s : List Nat) (hc : ev.ConjOK conj s.length)
+    (hp : PrimRoots ev s) (f g : CF Poly) (hf : CFInv f) (shape : Option (List Nat))
+    (h : irfftnNP (Poly.conj s) Poly.half (Poly.roots s) f shape = .ok g) (hs : g.mesh.n = s)
+    (j : List Nat) (c : Nat) (hcv : c < f.nvdim) :
+    ev.evalDense s (Poly.dense s (compA g.data c j))
+      = ninvProd (ev.roots s) s * sumBox s fun m =>
+          hermExtS conj s (symPlanes conj (ev.eval s.length Poly.half) s
+            (fun i => ev.eval s.length (compA f.data c i))) m * phaseR ((ev.roots s).map Root.swap) s m j := by
+  have hh := ev.eval_isHom s.length
+  have hpos : ∀ a, a < s.length → 0 < s.getD a 1 := fun a ha => (hp a ha).1
+  have hζ : ∀ a, a < s.length → ev.ζ a ^ s.getD a 1 = 1 := fun a ha => (hp a ha).2.pow_n
+  rw [ev.evalDense_dense s hpos hζ]
+  have h1 := (driver_irfftn_np_evaluates_to_model ev conj s hc hpos hζ f shape).1
+  rw [h] at h1
+  have hf' : CFInv (f.map (ev.eval s.length)) := ⟨hf.mesh, hf.shape, hf.nv, hf.labels⟩
+  have h2 := irfftn_np_is_idft conj (ev.eval s.length Poly.half) (ev.roots s) (f.map (ev.eval s.length)) _ hf' shape
+    h1.symm (by show Roots g.mesh.n (ev.roots s); rw [hs]; exact ev.roots_Roots s hp) j c hcv
+  rw [← compA_mapA hh g.data c j]
+  rw [show (g.map (ev.eval s.length)).data = mapA (ev.eval s.length) g.data from rfl,
+    show (g.map (ev.eval s.length)).mesh = g.mesh from rfl, hs] at h2
+  rw [h2]
+  have : compA (f.map (ev.eval s.length)).data c = fun i => ev.eval s.length (compA f.data c i) := by
+    funext i
+    exact compA_mapA hh f.data c i
+  rw [this]
+
+end driver3
+
+/-! ### (d.11) `irfftn` from the stored half spectrum only -/
+
+section ring7
+variable {R : Type} [CommRing R]
+
+/-- **The real inverse transform as a sum over the STORED half spectrum** (the c2r form), in the
+library's convention, for every accepted `shape` and every parity of the output count `n`: every
+component of every real-space cell `j` holds `Π(1/s_a)` times the sum over the cells `m` of the
+half-spectrum array of `Â[m]·e^{+2πi k_m·r_j}` plus, for the entries with last index
+`0 < l < ⌈n/2⌉` only, `conj(A[m])·e^{-2πi k_m·r_j}` (the entry of the Hermitian extension they stand
+for); `Â = A` except on the planes `l = 0` and `l = n/2` (even `n`), which enter through their
+Hermitian part.  No entry outside the stored array is referenced. -/
+theorem irfftn_half_sum (conj : R → R) (half : R) (ρs : List (Root R)) (f g : CF R) (hf : CFInv f)
+    (shape : Option (List Nat)) (h : irfftnNP conj half ρs f shape = .ok g) (hρ : Roots g.mesh.n ρs)
+    (j : List Nat) (c : Nat) (hc : c < f.nvdim) :
+    halfShape g.mesh.n = f.mesh.n ∧
+    compA g.data c j = ninvProd ρs g.mesh.n * sumBox f.mesh.n fun m =>
+      symPlanes conj half g.mesh.n (compA f.data c) m * phaseR (ρs.map Root.swap) g.mesh.n m j +
+        (if 1 ≤ m.getLastD 0 ∧ m.getLastD 0 < g.mesh.n.getLastD 0 - g.mesh.n.getLastD 0 / 2
+         then conj (compA f.data c m) * phaseR ρs g.mesh.n m j else 0) := by
+  obtain ⟨s, hs, hp, _, _, rfl⟩ := (irfftnNP_ok_iff conj half ρs f hf shape g).mp h
+  have hhalf := ifftShape_half f.mesh hf.mesh shape s hs
+  have hsh : f.data.shape = halfShape s := by rw [hhalf]; exact hf.shape
+  have hl := ifftShape_length f.mesh true shape s hf.mesh.2.1 hs
+  have hpos : 0 < s.getLastD 0 := by
+    rw [getLastD_eq_getD, hl]
+    exact hp _ (last_lt f.mesh hf.mesh)
+  refine ⟨hhalf, ?_⟩
+  rw [← hhalf]
+  exact irfftnArrNP_half_sum conj half ρs f.nvdim s f.data hsh hρ hpos j c hc
+
+end ring7
+
+/-- **The real inverse transform over ℂ, from the stored half spectrum**: for a valid complex
+half-spectrum field accepted by `Field.irfftn(shape)` (library convention, `half = 1/2`, roots
+`exp(-2πi/s_a)` of the output counts `s`), every component of every real-space cell `j` holds
+`(1/N) Σ_m [ Â[m]·exp(+2πi κ_m·j) + (0 < m_last < ⌈n/2⌉ ? conj(A[m])·exp(-2πi κ_m·j) : 0) ]` over the
+cells `m` of the stored array, `κ_m·j = Σ_{a<last}(m_a - ⌊s_a/2⌋) j_a/s_a + m_last j_last/s_last`. -/
+theorem irfftn_half_sum_exp (f g : CF ℂ) (hf : CFInv f) (shape : Option (List Nat))
+    (h : irfftnNP (starRingEnd ℂ) (1 / 2) (g.mesh.n.map cRoot) f shape = .ok g)
+    (j : List Nat) (c : Nat) (hc : c < f.nvdim) :
+    compA g.data c j = ninvProd (g.mesh.n.map cRoot) g.mesh.n * sumBox f.mesh.n fun m =>
+      symPlanes (starRingEnd ℂ) (1 / 2) g.mesh.n (compA f.data c) m *
+          Complex.exp ((2 * Real.pi * Complex.I) * ((krR g.mesh.n m j : ℚ) : ℂ)) +
+        (if 1 ≤ m.getLastD 0 ∧ m.getLastD 0 < g.mesh.n.getLastD 0 - g.mesh.n.getLastD 0 / 2
+         then (starRingEnd ℂ) (compA f.data c m) *
+           Complex.exp (-(2 * Real.pi * Complex.I) * ((krR g.mesh.n m j : ℚ) : ℂ)) else 0) := by
+  have hginv : g.mesh.Inv := by
+    obtain ⟨s, hs, hp, hd, _, hg⟩ := (irfftnNP_ok_iff _ _ _ f hf shape g).mp h
+    rw [hg]
+    exact rMesh_inv f.mesh hf.mesh s (ifftShape_length f.mesh true shape s hf.mesh.2.1 hs) hp hd
+  have hpos := mesh_counts_pos g.mesh hginv
+  have := (irfftn_half_sum (starRingEnd ℂ) (1 / 2) (g.mesh.n.map cRoot) f g hf shape h
+    (cRoots g.mesh.n hpos) j c hc).2
+  rw [this]
+  congr 1
+  apply sumBox_congr
+  intro m _
+  rw [phaseR_swap_complex g.mesh.n hpos m j, phaseR_complex g.mesh.n hpos m j]
+
+
 /-! ## Non-vacuity -/
 
 /-- the mesh hypotheses of the geometry theorems hold for it, so `Mesh.fftn` succeeds on it for
@@ -849,5 +1631,49 @@ example : ∃ g, fftn (Poly.roots [3, 1, 2])
        data := ⟨[3, 1, 2], fun i => [Poly.const (i.getD 0 0 : Rat) 1]⟩,
        vdims := none, vmap := [], unit := none } : CF Poly) = .ok g :=
   ⟨_, fftn_ok _ _ ⟨exMesh_inv, rfl, by decide, Or.inl ⟨rfl, rfl, rfl⟩⟩⟩
+
+/-! ### non-vacuity, second round -/
+
+/-- the k-mesh of the example mesh is valid, canonical and has distinct stripped names: the
+hypotheses of `ifftn_mesh_accepts_iff`, `fftn_ifftn_mesh` (incl. `KCanonical`) are satisfiable -/
+example : (kMesh exMesh false).Inv ∧ KCanonical (kMesh exMesh false) ∧
+    hasDup ((kMesh exMesh false).region.dims.map (stripPre "k_")) = false :=
+  ⟨kMesh_inv exMesh false exMesh_inv, kMesh_canonical exMesh exMesh_inv, hasDup_strip_kDim exMesh false exMesh_inv⟩
+
+/-- both sides of the acceptance equivalences are inhabited: a valid mesh with the names
+`k_x`, `x` is REFUSED by `Mesh.ifftn` -/
+example : exCollide.Inv ∧ ¬ ∃ b, meshIfftn exCollide false none = .ok b := by
+  refine ⟨exCollide_inv, ?_⟩
+  rw [ifftn_mesh_default_accepts_iff exCollide exCollide_inv false]
+  decide +kernel
+
+/-- a k-space field that did not come from `fftn` (off-centre mesh, mixed prefixes) meets every
+hypothesis of `fftn_ifftn`, `ifftn_accepts_iff`, `irfftn_accepts_iff`, `rfftn_irfftn` -/
+example : CFInv exK ∧ hasDup (exK.mesh.region.dims.map (stripPre "k_")) = false ∧
+    (∀ vs, exK.vdims = some vs → hasDup (vs.map (stripPre "ft_")) = false) ∧
+    Roots exK.mesh.n ([3, 1, 2].map cRoot) := by
+  refine ⟨exK_inv, by decide +kernel, ?_, cRoots [3, 1, 2] (by decide)⟩
+  intro vs h
+  have : vs = ["ft_a", "b", "ft_ft_c"] := by simp [exK] at h; exact h.symm
+  subst this
+  decide +kernel
+
+/-- `HermPlanes` is satisfiable by a non-constant half spectrum on a 3-d shape with an odd, a
+single-cell and an even axis: the real transform of real data -/
+example : HermPlanes (starRingEnd ℂ) [3, 1, 2]
+    (compA (rfftnArr ([3, 1, 2].map cRoot) 1 ⟨[3, 1, 2], fun i => [((i.getD 0 0 : Nat) : ℂ)]⟩) 0) :=
+  rfftn_output_hermitian_planes (starRingEnd ℂ) conj_isConj _ 1 ⟨[3, 1, 2], fun i => [((i.getD 0 0 : Nat) : ℂ)]⟩
+    (cRoots [3, 1, 2] (by decide)) (cConjRoots [3, 1, 2])
+    (by intro i c; simp only [compA]; cases c <;> simp) 0 (by decide)
+
+/-- and it is a genuine restriction: on the constant half spectrum `i` of two cells numpy's
+convention changes the zero-frequency entry (to 0), so `irfftnNP` and `irfftn` differ there;
+`1/2 ∈ ℂ` meets the hypothesis `half * 2 = 1` -/
+example : symPlanes (starRingEnd ℂ) (1 / 2) [2] (fun _ => Complex.I) [0] = 0 ∧ (1 / 2 : ℂ) * 2 = 1 := by
+  refine ⟨by simp [symPlanes], by norm_num⟩
+
+/-- a translation vector of the right length for the example shape (hypothesis of both shift
+theorems); it moves every cell: cell `(0,0,0)` comes from cell `(2,0,1)` -/
+example : [1, 0, 1].length = [3, 1, 2].length ∧ rollIdx [3, 1, 2] [1, 0, 1] [0, 0, 0] = [2, 0, 1] := by decide
 
 end DFV.C11
